@@ -127,4 +127,212 @@ theorem built_good (p : Packet) (h : Built p) : Good p := by
     · simp only [hwl]; omega
     · simp only; omega
 
+/-! ### The TLV loop, block by block -/
+
+theorem parseTLVf_nil (f : Nat) : parseTLVf f [] = .ok [] := by cases f <;> rfl
+
+/-- enough fuel is enough -/
+theorem parseTLVf_fuel (f : Nat) : ∀ (data : List Nat) (g : Nat), data.length ≤ f → data.length ≤ g →
+    parseTLVf f data = parseTLVf g data := by
+  induction f with
+  | zero =>
+    intro data g h _
+    have : data = [] := List.eq_nil_of_length_eq_zero (by omega)
+    subst this
+    rw [parseTLVf_nil, parseTLVf_nil]
+  | succ f ih =>
+    intro data g h hg
+    match data, h, hg with
+    | [], _, _ => rw [parseTLVf_nil, parseTLVf_nil]
+    | [a], _, hg =>
+      cases g with
+      | zero => simp at hg
+      | succ g => rfl
+    | t :: l :: more, h, hg =>
+      cases g with
+      | zero => simp at hg
+      | succ g =>
+        simp only [List.length_cons] at h hg
+        have e := ih (more.drop (8 * l - 2)) g (by simp; omega) (by simp; omega)
+        simp only [parseTLVf, e]
+
+/-- prepend a parsed TLV to the result of the rest of the loop -/
+def consOk (x : Except Err TLV) (r : Except Err (List TLV)) : Except Err (List TLV) :=
+  match x with
+  | .error e => .error e
+  | .ok x => match r with
+    | .error e => .error e
+    | .ok l => .ok (x :: l)
+
+theorem parseTLV_block (t l : Nat) (body rest : List Nat) (hl : 0 < l) (hb : body.length + 2 = 8 * l) :
+    parseTLV (t :: l :: (body ++ rest)) = consOk (parseOne t (8 * l) body) (parseTLV rest) := by
+  unfold parseTLV
+  have hlen : (t :: l :: (body ++ rest)).length = (body.length + rest.length + 1) + 1 := by
+    simp only [List.length_cons, List.length_append]
+  rw [hlen]
+  have htake : List.take (8 * l - 2) (body ++ rest) = body := List.take_left' (by omega)
+  have hdrop : List.drop (8 * l - 2) (body ++ rest) = rest := List.drop_left' (by omega)
+  have hfuel := parseTLVf_fuel (body.length + rest.length + 1) rest rest.length (by omega) (Nat.le_refl _)
+  simp only [parseTLVf, List.length_append, htake, hdrop, hfuel]
+  rw [if_neg (by omega), if_neg (by omega), if_neg (by omega)]
+  unfold consOk
+  rfl
+
+theorem parseTLV_nil : parseTLV [] = .ok [] := rfl
+
+/-! ### What `Bytes()` writes, TLV by TLV -/
+
+theorem beBytes_two (n : Nat) : beBytes 2 n = [n / 256 % 256, n % 256] := by
+  simp [beBytes, leBytes]
+
+theorem beBytes_four (n : Nat) :
+    beBytes 4 n = [n / 256 / 256 / 256 % 256, n / 256 / 256 % 256, n / 256 % 256, n % 256] := by
+  simp [beBytes, leBytes]
+
+theorem parse_off (o : Nat) (ho : o < 4294967296) :
+    parseOne 0x23 (8 * 1) ([0, 0] ++ beBytes 4 o) = .ok (.off o) := by
+  rw [beBytes_four]
+  simp only [List.cons_append, List.nil_append, parseOne]
+  have : be32 (o / 256 / 256 / 256 % 256) (o / 256 / 256 % 256) (o / 256 % 256) (o % 256) = o := by
+    unfold be32; omega
+  simp [this, be16]
+
+theorem parse_ts (t : TS) (ht : ValidTS t) :
+    parseOne 0x13 (8 * 2) ([64, 0xf5] ++ beBytes 2 t.num ++ beBytes 2 t.den ++ beBytes 8 t.t) = .ok (.ts t) := by
+  obtain ⟨h1, h2, h3⟩ := ht
+  rw [beBytes_two, beBytes_two]
+  simp only [List.cons_append, List.nil_append, parseOne]
+  have e1 : be16 (t.num / 256 % 256) (t.num % 256) = t.num := by unfold be16; omega
+  have e2 : be16 (t.den / 256 % 256) (t.den % 256) = t.den := by unfold be16; omega
+  have e3 : List.take 8 (beBytes 8 t.t) = beBytes 8 t.t := List.take_of_length_le (by simp [beBytes_length])
+  have e4 : beNat (beBytes 8 t.t) = t.t := by
+    rw [beNat_beBytes]
+    have : (256 : Nat) ^ 8 = 18446744073709551616 := by decide
+    rw [this]; exact Nat.mod_eq_of_lt h1
+  simp [e1, e2, e3, e4]
+
+theorem parse_fmt (d : Data) (hd : d.typed = true) :
+    ∃ f, parseOne 0x21 (8 * 1) (padTo6 (fmtOf d).raw) = .ok (.fmt f) ∧ f.kinds = (fmtOf d).kinds ∧
+      f.wordlen = (fmtOf d).wordlen ∧ f.endian = 1 := by
+  cases d with
+  | none => simp [Data.typed] at hd
+  | raw _ => simp [Data.typed] at hd
+  | i16 xs => exact ⟨_, rfl, rfl, rfl, rfl⟩
+  | i32 xs => exact ⟨_, rfl, rfl, rfl, rfl⟩
+  | i64 xs => exact ⟨_, rfl, rfl, rfl, rfl⟩
+
+/-! ### The shape TLV -/
+
+theorem shapeBytes_length (sz : List Int) :
+    (sz.flatMap fun s => beBytes 2 (twos 16 s)).length = 2 * sz.length := by
+  induction sz with
+  | nil => rfl
+  | cons x r ih => simp only [List.flatMap_cons, List.length_append, beBytes_length, ih, List.length_cons]; omega
+
+theorem pairs16_zeros (k : Nat) : pairs16 (List.replicate (2 * k) 0) = List.replicate k 0 := by
+  induction k with
+  | zero => rfl
+  | succ k ih =>
+    have : 2 * (k + 1) = (2 * k + 1) + 1 := by omega
+    rw [this, List.replicate_succ, List.replicate_succ, List.replicate_succ]
+    simp only [pairs16, ih]
+    rfl
+
+theorem pairs16_shape (sz : List Int) (hv : ValidDims sz) (k : Nat) :
+    pairs16 ((sz.flatMap fun s => beBytes 2 (twos 16 s)) ++ List.replicate (2 * k) 0)
+      = sz ++ List.replicate k 0 := by
+  induction sz with
+  | nil => simpa using pairs16_zeros k
+  | cons x r ih =>
+    have hx := hv x (by simp)
+    have hr : ValidDims r := fun d hd => hv d (by simp [hd])
+    have hlt := twos16_lt x
+    have e : be16 (twos 16 x / 256 % 256) (twos 16 x % 256) = twos 16 x := by unfold be16; omega
+    rw [List.flatMap_cons, beBytes_two]
+    simp only [List.cons_append, List.nil_append, pairs16, e, toSigned_twos16 x hx]
+    rw [ih hr]
+
+theorem filter_pos_mem (l : List Int) : ∀ x ∈ l.filter (· > 0), 0 < x := by
+  intro x hx
+  have := (List.mem_filter.mp hx).2
+  simpa using this
+
+theorem shapeLoop_filter (l acc : List Int) (n : Int) (hn : 1 ≤ n)
+    (hb : n * prod (l.filter (· > 0)) ≤ 65535) :
+    shapeLoop l acc n = some (acc ++ l.filter (· > 0)) := by
+  induction l generalizing acc n with
+  | nil => simp [shapeLoop]
+  | cons d r ih =>
+    have hP := prod_pos (r.filter (· > 0)) (filter_pos_mem r)
+    by_cases hd : d > 0
+    · have hf : (d :: r).filter (· > 0) = d :: r.filter (· > 0) := by simp [hd]
+      rw [hf] at hb ⊢
+      simp only [prod] at hb
+      have h1 : 1 ≤ n * d := by
+        have : n * 1 ≤ n * d := Int.mul_le_mul_of_nonneg_left (by omega) (by omega)
+        omega
+      have e : n * d * prod (r.filter (· > 0)) = n * (d * prod (r.filter (· > 0))) := Int.mul_assoc _ _ _
+      have h2 : n * d ≤ 65535 := by
+        have h3 : n * d * 1 ≤ n * d * prod (r.filter (· > 0)) := Int.mul_le_mul_of_nonneg_left hP (by omega)
+        rw [Int.mul_one] at h3
+        omega
+      simp only [shapeLoop, hd, if_true]
+      rw [if_neg (by omega), ih (acc ++ [d]) (n * d) h1 (by omega)]
+      simp
+    · have hf : (d :: r).filter (· > 0) = r.filter (· > 0) := by simp [hd]
+      rw [hf] at hb ⊢
+      simp only [shapeLoop, hd, if_false]
+      exact ih acc n hn hb
+
+theorem parseShape_enc (sz : List Int) (hv : ValidDims sz) (hwf : wfShape sz = true) (k : Nat) :
+    parseShape ((sz.flatMap fun s => beBytes 2 (twos 16 s)) ++ List.replicate (2 * k) 0)
+      = some (sz.filter (· > 0)) := by
+  unfold wfShape at hwf
+  simp only [Bool.and_eq_true, bne_iff_ne, ne_eq, decide_eq_true_eq] at hwf
+  obtain ⟨hne, hp⟩ := hwf
+  have hz : (List.replicate k (0 : Int)).filter (· > 0) = [] := by
+    rw [List.filter_eq_nil_iff]
+    intro x hx
+    have := List.eq_of_mem_replicate hx
+    simp [this]
+  unfold parseShape
+  rw [pairs16_shape sz hv k]
+  rw [shapeLoop_filter _ [] 1 (by decide) (by rw [List.filter_append, hz, List.append_nil]; simpa using hp)]
+  simp only [List.nil_append, List.filter_append, hz, List.append_nil]
+  rw [if_neg hne]
+
+theorem parseOne_shape (size : Nat) (body : List Nat) (h6 : 6 ≤ body.length) :
+    parseOne 0x22 size body =
+      match parseShape body with
+      | some s => .ok (.shape s)
+      | none => .error .bad := by
+  obtain ⟨b2, r2, rfl, h2⟩ := exists_cons body 5 h6
+  obtain ⟨b3, r3, rfl, h3⟩ := exists_cons r2 4 h2
+  obtain ⟨b4, r4, rfl, h4⟩ := exists_cons r3 3 h3
+  obtain ⟨b5, r5, rfl, h5⟩ := exists_cons r4 2 h4
+  obtain ⟨b6, r6, rfl, h6'⟩ := exists_cons r5 1 h5
+  obtain ⟨b7, r7, rfl, _⟩ := exists_cons r6 0 h6'
+  simp only [parseOne]
+  rw [if_neg (by decide), if_neg (by decide), if_neg (by decide), if_neg (by decide), if_neg (by decide),
+    if_pos True.intro]
+  generalize parseShape _ = o
+  cases o <;> rfl
+
+theorem encShape_parse (sz : List Int) (hv : ValidDims sz) (hwf : wfShape sz = true)
+    (hn : 48 + 8 * (1 + sz.length / 4) ≤ 255) (rest : List Nat) :
+    parseTLV (encShape sz ++ rest) = consOk (.ok (.shape (sz.filter (· > 0)))) (parseTLV rest) ∧
+      (encShape sz).length = 8 * (1 + sz.length / 4) := by
+  have hl : (1 + sz.length / 4) % 256 = 1 + sz.length / 4 := Nat.mod_eq_of_lt (by omega)
+  have hblen : ((sz.flatMap fun s => beBytes 2 (twos 16 s)) ++ List.replicate (2 * (3 - sz.length % 4)) 0).length + 2
+      = 8 * (1 + sz.length / 4) := by
+    simp only [List.length_append, shapeBytes_length, List.length_replicate]
+    omega
+  have henc : encShape sz = 0x22 :: (1 + sz.length / 4) ::
+      ((sz.flatMap fun s => beBytes 2 (twos 16 s)) ++ List.replicate (2 * (3 - sz.length % 4)) 0) := by
+    simp [encShape, hl]
+  constructor
+  · rw [henc, List.cons_append, List.cons_append, parseTLV_block _ _ _ _ (by omega) hblen]
+    rw [parseOne_shape _ _ (by omega), parseShape_enc sz hv hwf]
+  · rw [henc]; simp only [List.length_cons]; omega
+
 end DastardV.C15
